@@ -205,4 +205,77 @@ def C04.matchOrderOk (before after : List Order) : Bool :=
   let b := backIds before after
   ids.take s.length == s && (ids.drop s.length).all (fun i => b.contains i) && ids.length == s.length + b.length
 
+/-! ## Judges over event traces of concurrent executions (C03, C08, C12, C13, C14)
+
+An event is one shared-memory operation as logged by the instrumented crate. -/
+
+structure Ev where
+  t      : Nat
+  obj    : String
+  op     : String
+  detail : String
+  deriving Repr, Inhabited
+
+/-- `id->result` details of map operations -/
+def Ev.key (e : Ev) : String := (e.detail.splitOn "->").headD ""
+def Ev.res (e : Ev) : String := (e.detail.splitOn "->").getD 1 ""
+
+/-- C08 (hand-out discipline): per key, inserts and successful removes alternate starting from the
+    pre-loaded state, an insert never replaces a live entry, and a remove finds the key exactly
+    when it is there. `present` = keys in the map so far. -/
+def C08.scan (present : List String) : List Ev → Bool
+  | [] => true
+  | e :: rest =>
+    if e.obj == "map" && e.op == "insert" then
+      e.res == "new" && !present.contains e.key && C08.scan (e.key :: present) rest
+    else if e.obj == "map" && e.op == "remove" then
+      if e.res == "found" then present.contains e.key && C08.scan (present.filter (· != e.key)) rest
+      else !present.contains e.key && C08.scan present rest
+    else if e.obj == "map" && e.op == "get" then
+      (e.res == "found") == present.contains e.key && C08.scan present rest
+    else C08.scan present rest
+
+/-- C12: every observation of the three aggregates lies within what was ever supplied -/
+def C12.ok (maxTotal maxHid maxCnt : Nat) (obs : List (Nat × Nat × Nat)) : Bool :=
+  obs.all (fun o => decide (o.1 ≤ maxTotal) && decide (o.2.1 ≤ maxHid) && decide (o.2.2 ≤ maxCnt))
+
+/-- C14: the counter values handed out are pairwise distinct and form the range starting at `g0` -/
+def C14.ok (g0 : Nat) (evs : List Ev) : Bool :=
+  let ks := (evs.filter (fun e => e.obj == "uuid")).map (fun e => (e.res.toNat?, e.key, e.op))
+  ks.all (fun k => k.2.1 == "1" && k.2.2 == "fetch_add" && k.1.isSome) &&
+    (let vals := ks.filterMap (·.1)
+     vals.all (fun v => decide (g0 ≤ v) && decide (v < g0 + vals.length)) &&
+       vals.all (fun v => (vals.filter (· == v)).length == 1))
+
+/-- C13, for one not-found answer at position `k` for key `id`: is some *other* thread holding the
+    order in flight (removed it before `k`, re-inserts it after `k`)? -/
+def C13.inFlight (evs : List Ev) (k : Nat) (me : Nat) (id : String) : Bool :=
+  let before := evs.take k
+  let after := evs.drop (k + 1)
+  -- the last map event on `id` before `k`
+  match (before.filter (fun e => e.obj == "map" && e.key == id && (e.op == "insert" || (e.op == "remove" && e.res == "found")))).getLast? with
+  | some e => e.op == "remove" && e.t != me &&
+      after.any (fun a => a.obj == "map" && a.op == "insert" && a.key == id && a.t == e.t)
+  | none => false
+
+/-- C13: after a successful cancel of `id` at position `k`, nobody else takes or re-inserts it -/
+def C13.finalAfter (evs : List Ev) (k : Nat) (id : String) : Bool :=
+  (evs.drop (k + 1)).all (fun a => !(a.obj == "map" && a.key == id && (a.op == "insert" || (a.op == "remove" && a.res == "found"))))
+
+/-! ## C03 — conservation at quiescence, per order id
+
+`supplied id` (pre-loaded or added), `executed id` (sum over all threads' transactions),
+`returned id` (by a successful cancel), `resting id` (final listing). For ids that no thread amends:
+supplied = executed + returned + resting, except that a non-replenishing reserve order that was
+exhausted discards its hidden quantity. -/
+def C03.idOk (supplied : Option Order) (executed returned resting : Nat) : Bool :=
+  match supplied with
+  | none => executed == 0 && returned == 0 && resting == 0
+  | some o =>
+    let tot := o.vis + o.hid
+    executed + returned + resting == tot ||
+      (match o.kind with
+       | .reserve h _ _ _ => resting == 0 && returned == 0 && executed + h == tot
+       | _ => false)
+
 end PLV
